@@ -110,12 +110,12 @@ macro_rules! parts {
             name: "moves-lockstep",
             sys: $sys,
             cfgs: match tier {
-                Tier::Quick => cfgs(&[(2, 2), (3, 3), (2, 4), (9, 2)], &[None]),
+                Tier::Quick => cfgs(&[(2, 2), (2, 4), (9, 2)], &[None]),
                 Tier::Thorough => cfgs(&[(1, 1), (1, 2), (2, 1), (2, 2), (3, 2), (2, 3), (3, 3), (4, 3), (2, 4), (2, 5), (9, 2)], &[None]),
             },
             alphabet: &alpha,
             depth: tier.pick(4, 5),
-            seconds: tier.pick(40.0, 2400.0),
+            seconds: tier.pick(75.0, 2400.0),
             validated: true,
             nontrivial: Some("lockstep_transitions"),
         }
